@@ -169,8 +169,6 @@ Definition simplify_case_ok (rest : list Z) : Prop :=
     Forall2 simp_row_ok wg obs /\
     ((weighted =? 0)%Z = true -> Forall2 (fun l o => forall t w, In (t, w) o -> w == inject_Z (Z.of_nat (count_occ N.eq_dec l t))) g obs).
 
-Lemma Forall2_map_l {A B C} (R : B -> C -> Prop) (f : A -> B) : forall l m, Forall2 (fun a c => R (f a) c) l m -> Forall2 R (map f l) m.
-Proof. induction 1; cbn; constructor; auto. Qed.
 Lemma Forall2_trans_lr {A B C} (R : A -> B -> Prop) (S : B -> C -> Prop) (T : A -> C -> Prop) :
   (forall a b c, R a b -> S b c -> T a c) -> forall l m n, Forall2 R l m -> Forall2 S m n -> Forall2 T l n.
 Proof.
@@ -195,7 +193,7 @@ Proof.
   assert (Hfst : map (map fst) wg = a).
   { destruct (a0 =? 0)%Z; [injection Ewg as <-; unfold unit_weights; rewrite map_map; rewrite <- (map_id a) at 2; apply map_ext; intro x; rewrite map_map; apply map_id | eapply zipwg_fst; eauto]. }
   assert (Hrows : Forall2 simp_row_ok wg obs).
-  { unfold simplify_multi in HE. apply Forall2_map_l with (R := wadj_eq) (f := simplify_adj) in HE || idtac.
+  { unfold simplify_multi in HE.
     clear - HE. remember (map simplify_adj wg) as m eqn:Em. revert wg Em. induction HE; intros [|w wg] Em; cbn in Em; try discriminate; constructor.
     - injection Em as -> _. apply simp_row_sound. assumption.
     - injection Em as _ ->. apply IHHE. reflexivity. }
